@@ -74,6 +74,18 @@ def gen_cases(ctx):
                     "subgrid": ti.random_subgrid(rng, jmax, imax), "adv": rng.choice(["EF", "RK2", "RK4"]),
                     "D": rng.choice([0.0, 50.0, 500.0]), "steps": rng.randint(3, 15), "n": rng.randint(5, 40),
                     "seed": rng.randrange(10**6), "speed": rng.choice([0.5, 2.0, 6.0])})
+    # coast next to the open boundary: a land column just inside the valid region, flow of about two cells per step
+    # towards it, random kicks of about one cell: moves end on the land column, beyond it, or outside the grid
+    for _ in range(4 if ctx.quick else 40):
+        jmax, imax = rng.randint(9, 13), rng.randint(12, 16)
+        M = np.ones((jmax, imax), dtype=int)
+        side = rng.choice(["E", "W"])
+        col = imax - 3 if side == "E" else 2  # the outermost column of the valid region
+        M[:, col] = 0
+        M[rng.randrange(2, jmax - 2), col] = 1  # a one-cell channel through the coast
+        out.append({"k": "history", "imax": imax, "jmax": jmax, "mask": ["".join(map(str, r)) for r in M.tolist()],
+                    "subgrid": None, "adv": rng.choice(["EF", "RK2", "RK4"]), "D": DX * DX / (2 * DT), "steps": rng.randint(3, 6),
+                    "n": 60, "seed": rng.randrange(10**6), "speed": 0.0, "uniform": [2.0 * DX / DT * (1 if side == "E" else -1), 0.0]})
     # "appears in no later record / never reappears in the output": death-and-release histories written by the
     # real Output module in both layouts, read back (driver and oracle of C06: a value iff alive at that record)
     import c06
@@ -183,6 +195,8 @@ def eval_history(desc, grid, M, lim):
     cx, cy = (i0 + i1) / 2, (j0 + j1) / 2
 
     def func(X, Y, f):  # strong divergent flow + rotation: towards land and the open boundary
+        if desc.get("uniform"):
+            return np.full(np.shape(X), desc["uniform"][0]), np.full(np.shape(X), desc["uniform"][1])
         return speed * ((X - cx) * 0.5 - (Y - cy)) + f, speed * ((Y - cy) * 0.5 + (X - cx)) - f
 
     forcing = ti.StubForcing(func=func)
